@@ -11,6 +11,10 @@ from ..terms import T, pc_literals, show, subterms
 from . import common
 
 
+# (big, small): big >= small holds for every model MuJoCo compiles
+MODEL_EXTENT_INVARIANTS = {("nq", "nv")}
+
+
 def run(db, res, tier):
   sm = db.sm
   kfi = sm.func("io.reset_data_keyframe.reset_keyframe_data")
@@ -88,6 +92,14 @@ def run(db, res, tier):
           info = lck.keval.loops.get(iv.args[0], {})
           hi_t = info.get("hi")
           lo_ok = isinstance(hi_t, T) and hi_t.op == "p" and hi_t.args[0] == ext and bound_ok and same_elem
+          if not lo_ok and isinstance(hi_t, T) and hi_t.op == "p" and same_elem and bound_ok:
+            # fused form: `for i in range(<big>): if i < <ext>:` covers range(<ext>) iff big >= ext for every accepted
+            # model - a model invariant (MuJoCo: nq >= nv); anything else (e.g. nu >= na) does not hold in general
+            big = hi_t.args[0]
+            guard = T("cmp", "<", iv, T("p", ext))
+            guarded = any(t is guard and pol for t, pol in pc_literals(a.pc))
+            big_bound = (lck.scalar_binding_text(big) or "").endswith("." + big)
+            lo_ok = guarded and big_bound and (big, ext) in MODEL_EXTENT_INVARIANTS
         elif isinstance(iv, T) and iv.op == "tid":
           # parallel form: one thread per element, guarded `elemid < <ext>`, launch extent covering m.<ext>
           guard = T("cmp", "<", iv, T("p", ext))
